@@ -32,6 +32,11 @@ type numLit struct {
 	signed bool     // plain decimal literal or 's' flag
 	v      *big.Int // value bits (0 where xm has a 1)
 	xm     *big.Int // unknown (x/z) bit mask
+	// raw pieces, kept so that the parser can join "8 'hff" (size and based
+	// part separated by white space) into one sized literal
+	plain  bool   // plain decimal without base
+	base   byte   // 'b','o','d','h' for based literals
+	digits string // digits of a based literal / of a plain decimal
 }
 
 func isIdentStart(c byte) bool {
@@ -189,13 +194,10 @@ func lex(src string) ([]token, error) {
 				if j+1 < n && src[j] == '.' && isDigit(src[j+1]) {
 					return nil, errf("unsupported: real number literal")
 				}
-				// look ahead for a base specifier (possibly after spaces)
-				k := j
-				for k < n && (src[k] == ' ' || src[k] == '\t') {
-					k++
-				}
-				if k < n && src[k] == '\'' && k+1 < n && isBaseStart(src[k+1:]) {
-					j = k
+				// a base specifier must follow immediately to be merged here;
+				// "8 'hff" is joined by the parser ("#1 'b0" must stay apart)
+				if j < n && src[j] == '\'' && j+1 < n && isBaseStart(src[j+1:]) {
+					// fall through to the based part
 				} else {
 					// plain decimal
 					lit, err := makeDecimal(sizeStr)
@@ -299,11 +301,11 @@ func makeDecimal(digits string) (*numLit, error) {
 	if v.BitLen() > w {
 		w = v.BitLen()
 	}
-	return &numLit{w: w, signed: true, v: v, xm: new(big.Int)}, nil
+	return &numLit{w: w, signed: true, v: v, xm: new(big.Int), plain: true, digits: digits}, nil
 }
 
 func makeBased(sizeStr string, base byte, signed bool, digits string) (*numLit, error) {
-	lit := &numLit{signed: signed}
+	lit := &numLit{signed: signed, base: base, digits: digits}
 	size := 0
 	if sizeStr != "" {
 		sv, ok := new(big.Int).SetString(sizeStr, 10)
